@@ -20,7 +20,7 @@ LEVEL_NOTE = ("proof over all texts, sizes and sequence numbers for the model of
               "is_chunked_message; tie = correspondence of codec.encode / iter_encode / utils.join with the models")
 
 
-def check_frames(records, size, seq, frames, whole):
+def check_frames(records, size, seq, frames, whole, encoding=None):
     """the property, on the implementation's output alone; returns None or (signature, text)"""
     from senaite.astm import utils, codec
     n = len(frames)
@@ -59,7 +59,8 @@ def check_frames(records, size, seq, frames, whole):
     for how, arg in (("iterator", iter(frames)), ("generator", (f for f in frames)), ("tuple", tuple(frames))):
         if utils.join(arg) != joined:
             return "join-iterable", "join() of the same frames given as a %s differs from join() of the list" % how
-    if codec.decode(joined) != codec.decode(whole):
+    dec = (lambda m: codec.decode(m, encoding)) if encoding else codec.decode
+    if dec(joined) != dec(whole):
         return "join-decode", "joined message decodes to different records"
     return None
 
@@ -153,6 +154,52 @@ def run(ctx):
     run_cases(it, cases, ctx, kind="ienc")
     streams.append(it)
 
+    # the encoding of the text is the caller's choice; frame number, terminators and checksum are protocol bytes in every
+    # encoding (oracle on the implementation's frames alone; wide encodings are outside the Lean codec tables)
+    oe = Stream("other-encodings")
+    from senaite.astm import codec
+    for _ in range(3000 if ctx.thorough else 400):
+        enc = r.choice(["utf-8", "cp1251", "utf-16", "utf-16-le", "utf-16-be", "utf-32", "utf-32-be", "ascii"])
+        recs = []
+        for _k in range(r.choice([1, 2, 3])):
+            recs.append([r.choice("HPORL")] + ["".join(r.choice("abcXYZ019 .-") for _ in range(r.choice([0, 1, 3, 8, 30])))
+                                               for _f in range(r.choice([1, 2, 4]))])
+        seq = r.randrange(0, 17)
+        try:
+            whole = codec.encode_message(seq, recs, enc)
+        except Exception as e:  # noqa
+            oe.case({"encoding": enc})
+            oe.fail({"encoding": enc, "records": recs, "error": repr(e)[:100]}, "encode_message raises for plain ASCII text in %s" % enc,
+                    "other-encodings/raises")
+            continue
+        size = r.choice([8, 9, 12, 16, 20, 33, 64, 247, len(whole) - 1, len(whole), len(whole) + 1])
+        if size <= 7:
+            continue
+        case = {"encoding": enc, "records": recs, "size": size, "seq": seq}
+        try:
+            frames = list(codec.encode(recs, enc, size, seq))
+        except Exception as e:  # noqa
+            oe.case(case)
+            oe.fail(dict(case, error=repr(e)[:100]), "encode refuses / fails with size %d (message %d bytes, %s)" % (size, len(whole), enc),
+                    "other-encodings/refused")
+            continue
+        oe.case(case, nontrivial=len(frames) > 1)
+        oe.count(enc)
+        try:
+            bad = check_frames(recs, size, seq, frames, whole, encoding=enc)
+        except Exception as e:  # noqa
+            bad = ("raises", "join / classification / decoding of the produced frames raises %s" % repr(e)[:100])
+        if bad is None:
+            try:
+                back = codec.decode(frames[0] if len(frames) == 1 else utils_join(frames), enc)
+            except Exception as e:  # noqa
+                back = repr(e)
+            if back != [[(x if x != "" else None) for x in rec] for rec in recs]:
+                bad = ("roundtrip", "the (joined) message does not decode to the original records: %r" % (back,))
+        if bad:
+            oe.fail(dict(case, frames=[hexb(f) for f in frames]), bad[1], "other-encodings/" + bad[0])
+    streams.append(oe)
+
     # utils.join / is_chunked_message / split directly (model vs implementation)
     u = Stream("utils-direct")
     from senaite.astm import utils
@@ -175,6 +222,11 @@ def run(ctx):
             u.disagree(meta, i, mo)
     streams.append(u)
     return streams
+
+
+def utils_join(frames):
+    from senaite.astm import utils
+    return utils.join(frames)
 
 
 def search(ctx, disagreements):
